@@ -1,11 +1,12 @@
 import Amgcl.Model.Primitives
 import Amgcl.Model.Kernels
+import Amgcl.Model.Inverse
 /-!
 # Deflated solver (C18) — mirrors deflated_solver.hpp and detail/inverse.hpp
 
-* `denseInverse` : `detail::inverse(n, A, t, p)` — LU with partial pivoting through the permutation `p`, then the
-                   `n` triangular solves for the columns of the identity (inverse.hpp:45-100); `none` = the
-                   `assert(!is_zero(d))` on a vanishing pivot
+* `Amgcl.inverse` : `detail::inverse(n, A, t, p)` is the model of `Model/Inverse.lean` (C16: LU with partial pivoting
+                   through the permutation `p`, then the `n` triangular solves); `zeroPivot` detects the
+                   `assert(!is_zero(d))` on a vanishing pivot (the stored inverse pivot is `1/0 = 0`)
 * `mkE`          : the loop of `init` that accumulates `E = Zᵀ A Z` (deflated_solver.hpp:144-159)
 * `init`         : `E ← E⁻¹`
 * `project`      : `x += Z E⁻¹ Zᵀ (b - A x)` (:205-216)
@@ -16,52 +17,6 @@ The deflation vectors are `Z[j]`, `j < nvec`, each of size `n` (`prm.vec + n*j`)
 `r` is overwritten by `residual`, `d` by `std::fill`.
 -/
 namespace Amgcl.Deflation
-
-section inverse
-variable {K : Type} [Add K] [Sub K] [Mul K] [Div K] [Neg K] [Zero K] [One K] [DecidableEq K] [LT K] [DecidableLT K]
-
-/-- pivot search of column `col`: the FIRST position `i ≥ col` whose magnitude is strictly larger than all before -/
-def pivotSearch (n : Nat) (A : Array K) (p : Array Nat) (col : Nat) : Nat :=
-  ((List.range' col (n - col)).foldl (fun (acc : Nat × K) i =>
-    let mag := absK (A.getD (p.getD i 0 * n + col) 0)
-    if acc.2 < mag then (i, mag) else acc) (col, (0 : K))).1
-
-/-- one column of the factorisation; `none` when the pivot vanishes -/
-def luStep (n : Nat) (Ap : Array K × Array Nat) (col : Nat) : Option (Array K × Array Nat) :=
-  let A := Ap.1
-  let p := Ap.2
-  let pi := pivotSearch n A p col
-  let p := (p.setIfInBounds col (p.getD pi 0)).setIfInBounds pi (p.getD col 0)
-  let prow := p.getD col 0
-  let d := (1 : K) / A.getD (prow * n + col) 0
-  if d = 0 then none else
-  let A := (List.range' (col + 1) (n - (col + 1))).foldl (fun (A : Array K) i =>
-    let row := p.getD i 0
-    let A := A.setIfInBounds (row * n + col) (A.getD (row * n + col) 0 * d)
-    (List.range' (col + 1) (n - (col + 1))).foldl (fun (A : Array K) j =>
-      A.setIfInBounds (row * n + j) (A.getD (row * n + j) 0 - A.getD (row * n + col) 0 * A.getD (prow * n + j) 0)) A) A
-  some (A.setIfInBounds (prow * n + col) d, p)
-
-/-- the two triangular solves for column `k` of the identity, written into column `k` of `t` -/
-def solveCol (n : Nat) (A : Array K) (p : Array Nat) (t : Array K) (k : Nat) : Array K :=
-  let t := (List.range n).foldl (fun (t : Array K) i =>
-    let row := p.getD i 0
-    let b := (List.range i).foldl (fun b j => b - A.getD (row * n + j) 0 * t.getD (j * n + k) 0)
-      (if row = k then (1 : K) else 0)
-    t.setIfInBounds (i * n + k) b) t
-  (List.range n).reverse.foldl (fun (t : Array K) i =>
-    let row := p.getD i 0
-    let s := (List.range' (i + 1) (n - (i + 1))).foldl (fun s j => s - A.getD (row * n + j) 0 * t.getD (j * n + k) 0)
-      (t.getD (i * n + k) 0)
-    t.setIfInBounds (i * n + k) (s * A.getD (row * n + i) 0)) t
-
-/-- `detail::inverse(n, A, t, p)`: the inverse of the row-major `n × n` matrix `A` -/
-def denseInverse (n : Nat) (A : Array K) : Option (Array K) :=
-  match (List.range n).foldlM (luStep n) (A, Array.ofFn (n := n) (fun i => i.val)) with
-  | none => none
-  | some (LU, p) => some ((List.range n).foldl (solveCol n LU p) (Array.replicate (n * n) 0))
-
-end inverse
 
 section defl
 variable {K : Type} [Add K] [Sub K] [Mul K] [Div K] [Neg K] [Zero K] [One K] [DecidableEq K] [LT K] [DecidableLT K]
@@ -81,9 +36,19 @@ structure State (K : Type) where
   Z : Array (Vec K)
   Einv : Array K
 
-/-- constructor + `init`; `none` = the assert inside `detail::inverse` -/
+/-- does the LU phase of `detail::inverse` meet a vanishing pivot (`d = inverse(0) = 0`, the `assert`)?  The inverse
+pivot of column `col` stays in `A[p[col]*n + col]` after the factorisation. -/
+def zeroPivot (n : Nat) (E : Array K) : Bool :=
+  let lu := luPhase n E (Array.replicate n 0)
+  (List.range n).any (fun col => decide (get2 n lu.1 (lu.2.getD col 0) col = 0))
+
+/-- constructor + `init`: `E ← inverse(E)` with the two local workspaces `t` (`nvec²` values) and `p` (`nvec` ints),
+both value-initialised; `none` = the assert inside `detail::inverse` -/
 def init (A : CRS K) (Z : Array (Vec K)) : Option (State K) :=
-  (denseInverse Z.size (mkE A Z)).map (fun Ei => { A := A, Z := Z, Einv := Ei })
+  let nv := Z.size
+  let E := mkE A Z
+  if zeroPivot nv E then none
+  else some { A := A, Z := Z, Einv := (inverse nv E (Array.replicate (nv * nv) 0) (Array.replicate nv 0)).1 }
 
 /-- the coefficient vector `d = E⁻¹ Zᵀ r`, accumulated column by column -/
 def coeffs (nt : Nat) (st : State K) (r : Vec K) : Array K :=
